@@ -9019,7 +9019,7 @@ class SVG(Group):
 
         # Semiparse the nodes. All nodes are given in iterparse ordering with start-ns, start, and end.
         # Use values are inlined.
-        def semiparse(nodes):
+        def semiparse(nodes, active=()):
             for elem, children in nodes:
                 if children is None:
                     yield None, "start-ns", elem
@@ -9028,7 +9028,7 @@ class SVG(Group):
                 if tag.startswith("{http://www.w3.org/2000/svg"):
                     tag = tag[28:]  # Removing namespace. http://www.w3.org/2000/svg:
                 yield tag, "start", elem
-                yield from semiparse(children)
+                yield from semiparse(children, active)
                 if SVG_TAG_USE == tag:
                     url = None
                     semiattr = elem.attrib
@@ -9036,11 +9036,13 @@ class SVG(Group):
                         url = semiattr[XLINK_HREF]
                     if SVG_HREF in semiattr:
                         url = semiattr[SVG_HREF]
-                    if url is not None:
+                    if url is not None and url[1:] not in active:
                         try:
-                            yield from semiparse([event_defs[url[1:]]])
+                            target = event_defs[url[1:]]
                         except KeyError:
-                            pass  # Failed to find link.
+                            target = None  # Failed to find link.
+                        if target is not None:
+                            yield from semiparse([target], active + (url[1:],))
                 yield tag, "end", elem
 
         yield from semiparse(nodes)
